@@ -3,4 +3,4 @@ From Coq Require Import ExtrOcamlBasic ZArith NArith Arith.
 From ZV Require Import RaftAbs.Model RaftAbs.Acceptor.
 Extraction Language OCaml.
 Extraction "model.ml" Z.of_N N.of_nat Nat.add init init_okb apply_label run match_node match_log obs_in_tlog obs_lastterm
-  node_of tlog_of app_of gcommit_len camp_exposed promises_why restart_node grantedb ackedb lastterm term_at overlap_state n_configs gcommit_of term_leader commit_comparable msgapp_ok heartbeat_ok snapshot_ok.
+  node_of tlog_of app_of gcommit_len camp_exposed promises_why restart_node grantedb ackedb lastterm term_at overlap_state n_configs gcommit_of lc_label_ok term_leader commit_comparable msgapp_ok heartbeat_ok snapshot_ok.
